@@ -1,5 +1,46 @@
 CONFIG = dict(
         level='proof',
         streams=[dict(harness='c01', driver='c01', shrink_field='keep', timeout=7200)],
-        rule='TODO',
+        rule='one case = one synthetic git history run through the real pipeline (TreeDiff, BlobCache, FileDiff, TicksSinceStart, '
+             'IdentityDetector, BurndownAnalysis; hercules.NewPipeline/DeployItem/Initialize/Run) with granularity G >= sampling S >= 1 '
+             '(S < G in a third of the cases), file / people tracking on or off, hibernation off or distance 1..3 (memory, disk, threshold). '
+             'Kinds: conflict-free histories from the declarative generator of DESIGN.md appendix D (linear-cf, dag1 = random DAGs closed to a '
+             'single head, dag1-addm = every merge adds lines, multi = several heads, shape-* = diamond, criss-cross, nested and chained '
+             'merges, octopus, all commits in one tick, two roots), lin = linear histories with arbitrary edits (repeated lines, replacements, '
+             'deletions, renames, binary flips, missing final newline), notext = only empty/binary files (F11). '
+             'Non-trivial = at least 3 commits and (conflict-free kinds) at least one killed line; distinct = distinct '
+             '(history, G, S, flags, hibernation setting).',
+        exhaustive_note='',
+        assumptions=[
+            'C03 (tracker = array): internal/burndown.File behaves as the plain array of per-line values and reports per (current, previous) value '
+            'the same sums as the array update arr_update of Burndown/Analysis.v',
+            'C07 (file merge): File.Merge computes the per-line rule transcribed in Analysis.v merge_lines/resolve_marks',
+            'C02 (run plan): the plan executed by Pipeline.Run passes plan_okb of Burndown/Replay.v (every commit replayed on exactly its '
+            'ancestry); evaluated on the executed plan of every case by the driver, so it is also checked case by case',
+            'C11/C20 (diff scripts, tree changes): on a conflict-free history (all lines distinct) the file diff between two versions deletes '
+            'exactly the lines absent from the new version and inserts exactly those absent from the old one (canonical script '
+            'Replay.v hunks); per case the resulting sparse histories of the model and of the implementation are compared',
+            'C09 (hibernation transparent): Hibernate/Boot are the identity on the model; a quarter of the cases run with hibernation on',
+            'C19 (ticks) and C16 (identities): the tick of a commit is its day offset from the first commit, the author index is the '
+            'people-dictionary index; both are read from the generated history (ticks) and the recorded dictionary (authors)',
+            'ticks < 16383 (TreeMergeMark) and at most 2^18 - 3 developers: the packed (author, tick) value of burndown.go is injective there',
+        ],
+        trusted_base=[
+            'hand-written Gallina models coq/theories/Burndown/{Dense,Analysis,Replay}.v of leaves/burndown.go (groupSparseHistory, Consume, '
+            'handleInsertion/Deletion/Modification, Merge, Fork, updaters, packPersonWithTick, Finalize) and of the part of '
+            'core/pipeline.go Run that drives one item along a plan (incl. isMerge); tied to the code by replaying every case: '
+            'sparse global/file/people histories, interaction matrix, dense matrices and final files of the root branch must be equal',
+            'the declarative history model and ground truth coq/theories/Burndown/Lifetimes.v and Linear.v (extracted: the oracle)',
+            'go-git in-memory repositories built by harness/synth (blobs "L<id>\\n" per line identity)',
+        ],
+        level_text='Proved in Coq (all closed under the global context): C01_dense (groupSparseHistory: every cell of the dense matrix = sum of '
+                   'the sparse entries of samples <= s and band b, for every sparse history and sampling <, =, > granularity; the pre-fix row '
+                   'allocation is refuted); the ground-truth oracle has no negative cell, every row sums to the lines alive at the sample and '
+                   'the last row to the lines at HEAD; C01_linear (arbitrary edit scripts on a linear history: no negative cell, row sums = '
+                   'tracked lines at the sample); C01_global_sparse / C01_matrix for conflict-free histories executed along any validated '
+                   'plan: see level_note for the part that is closed.',
+        level_note='(filled in by the builder at the end of the round; see docs/C01.md)',
+        technique='machine-checked proof in Coq over a Gallina model of BurndownAnalysis + replay of the real pipeline on synthetic '
+                  'repositories: every matrix cell against the extracted ground truth (PROPFAIL), sparse histories / dense result / final '
+                  'files against the extracted model run along the executed plan (MISMATCH)',
     )
